@@ -21,32 +21,32 @@ CHECKS = {
          "Nothing below the ServiceControl seam (unit-file quoting) is tested; generators respect antctl's own clap rules; requested port 65535 is left to C17; the hooked antnode is built into harness/target-antnode by the check itself.",
          "DESIGN.md §3 C20"),
  "C14": ("vh-client", "exploration",
-         "proptest over lengths around every size-class boundary x contents x fetch completion orders; real autonomi self-encryption + Client::data_get / data_get_public over a hand-stepped client driver answering from an in-memory chunk map; same binary also built with MAX_CHUNK_SIZE=1024 (child process) to reach 1-3 additional data-map levels; round-trip / size / SHA3 address / determinism oracle",
+         "proptest over lengths around every size-class boundary x contents x fetch completion orders; real autonomi self-encryption + Client::data_get / data_get_public over a hand-stepped client driver answering from an in-memory chunk map; same binary also built with MAX_CHUNK_SIZE=1024 (child process) to reach 1-3 additional data-map levels; round-trip / size / SHA3 address / determinism oracle; a quarter of the cases deny 1-2 chunk reads (NotFound / timeout): the read must fail or return the original, never other bytes",
          "Generated round trips through the real client fetch path in two builds: returned bytes equal the input for every boundary length and multi-level data map, every chunk is addressed by the independent SHA3-256 of its content and bounded by MAX_CHUNK_SIZE (known dependency finding excluded by signature), encryption is deterministic, inputs < 3 bytes are rejected. Held-on-N-cases assurance.",
          "The network is an in-memory chunk map answering at the kad-event seam; CHUNK_DOWNLOAD_BATCH_SIZE is process-global (recorded in the evidence); chunk address order of the returned vector is not asserted.",
          "DESIGN.md §3 C14"),
  "C15": ("vh-client", "exploration",
-         "proptest over adversarial reply sets: substituted / wrong-kind / garbage / truncated / other-key chunk replies for chunk_get and data_get_public, and 5 holders x <=4 scratchpad versions (owner-signed, unsigned, forged, inflated counter, foreign-owned but encrypted to the requester) with generated arrival order and terminator for fetch_and_decrypt_vault, injected at the kad-event seam of the real client driver; hash-to-address and authentic-highest-counter oracle",
+         "proptest over adversarial reply sets: substituted / wrong-kind / garbage / truncated / other-key chunk replies for chunk_get and data_get_public, and 5 holders x <=4 scratchpad versions (owner-signed, unsigned, forged, inflated counter, foreign-owned but encrypted to the requester) with generated arrival order and terminator for fetch_and_decrypt_vault, injected at the kad-event seam of the real client driver; hash-to-address and authentic-highest-counter oracle; section wrappers (data_get with a caller-held data map, archive_get_public, archive_get against complete decoy objects); get_user_data_from_vault as a second vault entrance; chunk records that spell out the requested address next to other bytes",
          "Generated adversarial holders against the real client read paths: any returned chunk hashes to the requested address, any returned public data is the data the requested data map describes, any returned vault content comes from a delivered version owned and validly signed by the requested key with the highest such counter, and no authentic version means an error. Held-on-N-cases assurance.",
          "Authenticity recomputed in the harness (owner key + BLS over counter||SHA3(data)); reads that end in an error are always acceptable; 'received' = delivered before the query completed.",
          "DESIGN.md §3 C15"),
  "C12": ("vh-protocol", "exploration",
-         "proptest round-trip of every record kind and every request/response variant through the repository's msgpack and CBOR codecs, byte-exact differential against 72 frozen goldens in both directions, exhaustive single mutations of every golden, generated structural byte mutations (incl. wider MessagePack forms of the tag), encodes that follow a failed encode on the same thread, and (thorough) libFuzzer targets carrying the same oracle in-target",
+         "proptest round-trip of every record kind and every request/response variant through the repository's msgpack and CBOR codecs, byte-exact differential against 72 frozen goldens in both directions, exhaustive single mutations of every golden, generated structural byte mutations (incl. wider MessagePack forms of the tag), encodes that follow a failed encode on the same thread, and (thorough) libFuzzer targets carrying the same oracle in-target; section hostile_quote_time (paid records / proofs / quotes re-dated on the wire to times the clock type cannot hold, through a serde mirror of the quote); eleven crafted address-carrying chunk forms incl. hex-string spellings",
          "Round-trip, fixed-size/fixed-number tag, golden, forged-chunk-address, no-panic and decode-reencode laws held on ~2.1 M (quick) to 60 M+ (thorough) generated inputs plus exhaustive sub-enumerations (all 256 tags, every truncation offset / bit flip / tag rewrite of each golden); changes to a tag number, field order, variant name, skipped field, serialised chunk address or header bounds check are each detected in the quick tier.",
          "Goldens are trusted as captured from the pinned tree; messages use serde via cbor4ii as libp2p's request_response::cbor codec does, codec framing is below the seam; a non-canonical 3-byte header form accepted by from_record is an explicit either-zone.",
          "DESIGN.md §3 C12"),
  "C13": ("vh-protocol", "exploration",
-         "proptest over honestly signed quotes with tracked single- and multi-field mutations judged by a symbolic signer/fields oracle, proof-of-payment truth tables over proofs of 0-5 quotes, wall-clock expiry with a guard band, historical-consistency pairs, and arrival orders of quotes delivered to the real swarm driver's per-peer quote history (child process in vh-store)",
+         "proptest over honestly signed quotes with tracked single- and multi-field mutations judged by a symbolic signer/fields oracle, proof-of-payment truth tables over proofs of 0-5 quotes, wall-clock expiry with a guard band, historical-consistency pairs, and arrival orders of quotes delivered to the real swarm driver's per-peer quote history (child process in vh-store); crowds of up to 44 other peers' quotes between two quotes of one peer in the driver-side section",
          "The verification truth table (quote verifies iff carried key is the claimed node's and the signature covers exactly the current fields; proof verifies iff verifier is payee and all quotes verify; expired iff older than the window or future-dated; regressing later quote flagged) held on 0.9 M (quick) to 17 M (thorough) cases covering every mutation and composition class; eight seeded weakenings are detected in the quick tier.",
          "ed25519 unforgeability assumed; +-5 s around both expiry boundaries, sub-second timestamp changes and key-encoding aliases are not asserted; the converse (honest quote verifies) only for shapes a real client produces.",
          "DESIGN.md §3 C13"),
  "C07": ("vh-node", "exploration",
-         "stateful proptest histories of deliveries (paid upload / unpaid update / replicated copy) of scratchpads, transactions and registers for one owner with generated counters, signers, validity and keys against the real node; neighbouring deliveries optionally run concurrently under a generated command schedule; sequential model from the statement, overlapping pairs judged against both serial orders; deliveries that arrive before the previous write has been acknowledged; deliveries of another kind under the same record key",
+         "stateful proptest histories of deliveries (paid upload / unpaid update / replicated copy) of scratchpads, transactions and registers for one owner with generated counters, signers, validity and keys against the real node; neighbouring deliveries optionally run concurrently under a generated command schedule; sequential model from the statement, overlapping pairs judged against both serial orders; deliveries that arrive before the previous write has been acknowledged; deliveries of another kind under the same record key; section large_register: held and delivered versions of 500-700 entries that mostly overlap (sizes adding up beyond the entry limit), judged against the union",
          "Model-based checking after every delivery: stored scratchpad is owner-signed (independent BLS check) and its counter never decreases and equals the highest eligible one; transaction set / register operations equal the union of eligible valid deliveries; nothing invalid or foreign is stored; overlapping validations must be serialisable. Held-on-N-histories assurance.",
          "Harness-owned interleaving at command granularity on one thread; payments valid by construction; a register delivery with a non-writer op is rejected as a whole.",
          "DESIGN.md §3 C07"),
  "C09": ("vh-node", "exploration",
-         "proptest cases over a 2-4 node ClusterSim of real nodes: generated initial store contents (missing / diverging versions), rounds of interval replication with every message delivered in a generated order through the harness transport; convergence (judged at the fixpoint of the rounds) + advertisement-completeness + non-neighbour oracle (strangers, known-but-far peers, former replication targets); forced fetches; advertisers with a responsible range; a full node whose farthest record is the diverged one",
+         "proptest cases over a 2-4 node ClusterSim of real nodes: generated initial store contents (missing / diverging versions), rounds of interval replication with every message delivered in a generated order through the harness transport; convergence (judged at the fixpoint of the rounds) + advertisement-completeness + non-neighbour oracle (strangers, known-but-far peers, former replication targets); forced fetches; advertisers with a responsible range; a full node whose farthest record is the diverged one; section advert_fanout: one node with 6-16 routing-table peers and a range reaching the r-th closest: every in-range peer gets the full list",
          "After generated exchanges: every chunk held anywhere is held byte-identically by all neighbours, every node's list advertised every record it held and went to every neighbour, lists from strangers / self trigger nothing, mutable records converge to union / highest counter (known finding excluded by signature). Held-on-N-cases assurance.",
          "All nodes are mutual closest peers with spare capacity and unrestricted range; 'enough rounds' = the generated 2-6 rounds and then further rounds while any store still changes (fixpoint); libp2p request/response is replaced by the harness transport.",
          "DESIGN.md §3 C09"),
@@ -56,7 +56,7 @@ CHECKS = {
          "BLS (blsttc), crdts and rmp-serde mirror construction trusted; either-zones: forged signature on an open register, a merge refused for exceeding the entry limit.",
          "DESIGN.md §3 C06"),
  "C18": ("vh-bootstrap", "exploration",
-         "stateful proptest histories against the real BootstrapCacheStore and one cache file (add/update/clean-up/flush/load/planted real-format files with past timestamps and generated counters), generated + exhaustively truncated corrupt files, and an OS-thread multi-writer stress with a concurrent reader; relational oracles over memory, load result and raw JSON read by the harness' own reader",
+         "stateful proptest histories against the real BootstrapCacheStore and one cache file (add/update/clean-up/flush/load/planted real-format files with past timestamps and generated counters), generated + exhaustively truncated corrupt files, and an OS-thread multi-writer stress with a concurrent reader; relational oracles over memory, load result and raw JSON read by the harness' own reader; flushes against an obstructed cache path (must fail without losing what the store knew)",
          "After every generated step: bounds, well-formed dialable addresses with peer id, nothing expired/unreliable after clean-up, merge loses nothing clean-up has no licence to drop, save->load round trip; corrupt/foreign files never crash and are replaced by the next flush; every byte prefix of valid files; concurrent writers never produce a torn read (sampled by the OS scheduler, counted). Held-on-N-cases assurance.",
          "Threads stand in for processes; expiry judged with a 300 s guard band; where a limit is exceeded everything of that peer is an either-zone; harness JSON reader and tmpfs/ext4 rename semantics trusted.",
          "DESIGN.md §3 C18"),
@@ -66,22 +66,22 @@ CHECKS = {
          "The Solidity contract is replaced by the stub's verdict table; expiry faults are >= 60 s beyond the boundary; proofs carry 3 quotes (contract arity).",
          "DESIGN.md §3 C03"),
  "C04": ("vh-node", "exploration",
-         "proptest cases (kind x path: kad-store put->UnverifiedRecord->validation / unpaid update / replicated copy x matched or adversarially mismatched key x prior content x malformed shapes) against the real node; oracle = independent SHA3-256 address derivation over whole-store snapshots",
+         "proptest cases (kind x path: kad-store put->UnverifiedRecord->validation / unpaid update / replicated copy x matched or adversarially mismatched key x prior content x malformed shapes) against the real node; oracle = independent SHA3-256 address derivation over whole-store snapshots; forged-owner registers in both permission settings (open to anyone / owner only), with and without operations",
          "Generated search over (key, content) pairs on every acceptance path: nothing is ever held under a key its decoded content does not derive; a record under a foreign key is rejected and the store is byte-identical; valid matched records are stored; network records are unreadable before validation; oversized (incl. exactly at the limit) / unparseable ones are refused; a scratchpad or register not signed by the owner its key derives from is refused. Held-on-N-cases assurance.",
          "Address derivation recomputed with tiny-keccak; scratchpad and transaction of one owner legitimately share an address; payment valid throughout (stub).",
          "DESIGN.md §3 C04"),
  "C01": ("vh-store", "exploration",
-         "stateful proptest histories (put/overwrite/remove/get/list + generated delivery order/delay of completion notifications + injected write faults with retries + store capacities small enough to prune) interpreted against the real SwarmDriver/NodeRecordStore and a per-key reference model; shrinking to replay file",
+         "stateful proptest histories (put/overwrite/remove/get/list + generated delivery order/delay of completion notifications + injected write faults with retries + store capacities small enough to prune) interpreted against the real SwarmDriver/NodeRecordStore and a per-key reference model; shrinking to replay file; a quarter of the histories run over a driver whose local command channel has 1-4 slots, so that completion notices meet a full channel",
          "Generated-history search against a reference map: every read must return bytes handed in for that key; after settling, the latest accepted write per key is read back byte-exact, listed with the right type and on disk, removed keys are gone. The harness owns the schedule at the granularity the statement quantifies over (completion order of different-key tasks = order of the buffered completion notifications). Held-on-N-histories assurance.",
          "Single-threaded stepping through the verif-hooks pass-throughs; same-key task order is FIFO (excluded by the statement); keys whose write the harness made fail are only checked for the safety half.",
          "DESIGN.md §3 C01"),
  "C02": ("vh-store", "fault_enumeration",
-         "crash-state enumeration: disk effects of generated histories are measured by directory diff, then per-key effect prefixes and torn byte prefixes are materialised and a fresh node (same identity, shipped feature set) is started over them; plus live drop-without-settle crashes and an exhaustive every-byte-prefix sweep per small record",
+         "crash-state enumeration: disk effects of generated histories are measured by directory diff, then per-key effect prefixes and torn byte prefixes are materialised and a fresh node (same identity, shipped feature set) is started over them; plus live drop-without-settle crashes and an exhaustive every-byte-prefix sweep per small record; section crash_during_startup: the disk writes of a start-up itself are measured (whole-tree diff + back-dated mtimes) and torn one file at a time before a further restart",
          "Fault enumeration over crash points: for each generated history, arbitrary per-key lag and a torn prefix of the next write; for small records every byte prefix is tried (exhaustive per case). Oracle from the statement: served value is nothing or a previously validated value; completed writes are served and listed; completed removals stay removed.",
          "A torn write is modelled as a byte prefix of the new content; per-key effects apply in issue order; restart goes through the real NetworkBuilder::build_node with ant-node's default features (encrypt-records) via feature unification.",
          "DESIGN.md §3 C02"),
  "C05": ("vh-store", "exploration",
-         "proptest cases (quorum cfg x 1-4 concurrent real get_record_from_network callers x up to 3 versions of chunk/transaction/register/scratchpad records x reply sequences with duplicates x terminator) injected as synthetic kad events into a hand-stepped real SwarmDriver; distinct-peer quorum + merge model as oracle",
+         "proptest cases (quorum cfg x 1-4 concurrent real get_record_from_network callers x up to 3 versions of chunk/transaction/register/scratchpad records x reply sequences with duplicates x terminator) injected as synthetic kad events into a hand-stepped real SwarmDriver; distinct-peer quorum + merge model as oracle; up to 8 content versions per key, with walks over 6-8 peers that each hold another version",
          "Generated search over reply schedules at the kad-event seam against a model counting distinct peers per version: a value is legal only on quorum (+target) or as the deterministic merge; SplitRecord must carry every version; every caller gets exactly one outcome. Held-on-N-cases assurance.",
          "libp2p's query engine is replaced by injected events; a target is only required of quorum results, not of merges; scratchpad counter ties may resolve either way.",
          "DESIGN.md §3 C05"),
@@ -91,7 +91,7 @@ CHECKS = {
          "Virtual time through the ageing hook with a 17-23 s guard band around the 20 s deadline; liveness only as bounded progress.",
          "DESIGN.md §3 C08"),
  "C10": ("vh-store", "exploration",
-         "stateful proptest histories (capacity 1-12, puts at known distances incl. unacknowledged bursts, range, clean-up, payments, quotes, restarts) against the real SwarmDriver/NodeRecordStore with a step-by-step accept/evict/refuse model; large-store cases around the 1638-record clean-up threshold",
+         "stateful proptest histories (capacity 1-12, puts at known distances incl. unacknowledged bursts, range, clean-up, payments, quotes, restarts) against the real SwarmDriver/NodeRecordStore with a step-by-step accept/evict/refuse model; large-store cases around the 1638-record clean-up threshold; a quarter of the histories run over a 1-4-slot local command channel",
          "Model-based checking of every step: acceptance below capacity, closer-than-farthest rule with exactly the farthest evicted, refusal leaves the held set unchanged, three views of the held set agree, quoted figures equal truth incl. payment count across restarts; clean-up decides each record correctly around the threshold. Held-on-N-histories assurance.",
          "Distances by the harness' own SHA-256/XOR metric; overwrite of a held key at capacity and distance == range are explicit either-zones.",
          "DESIGN.md §3 C10"),
@@ -189,6 +189,6 @@ def main():
     json.dump(m, open(os.path.join(ROOT, "MANIFEST.json"), "w"), indent=1)
     print("wrote MANIFEST.json:", len(checks), "checks,", len(na), "not claimed")
 
-HOOK_COMMITS = ["1cacaa2", "a146744", "76ca8b1", "740a190", "3924a95"]
+HOOK_COMMITS = ["1cacaa2", "a146744", "76ca8b1", "740a190", "3924a95", "14e3497"]
 if __name__ == "__main__":
     main()
